@@ -187,18 +187,11 @@ def cum (sizes : List Nat) (b : Nat) : Nat := (sizes.take b).sum
 def blockRange (sizes : List Nat) (b : Nat) : List Nat :=
   List.range' (cum sizes b) (cum sizes (b + 1) - cum sizes b)
 
-/-- `str(self)` (used in the message of the ValueError of `dofs_of`) runs into an assertion
-    when some variable name lives both on subdomains and on interfaces -/
-def mixedName (vars : List Var) : Bool :=
-  vars.any (fun v => vars.any (fun w => w.name == v.name && w.sub != v.sub))
-
-def unknownErr (s : State) : Err := if mixedName s.vars then .assertion else .value
-
 def dofsOfIds (s : State) : List Nat → Except Err (List Nat)
   | [] => .ok []
   | i :: r =>
     match numberOf s.numbers i with
-    | none => .error (unknownErr s)
+    | none => .error .value   -- ValueError: variable not registered among the dofs
     | some b =>
       match dofsOfIds s r with
       | .error err => .error err
